@@ -10,7 +10,7 @@ Functions mirror, one to one, the control flow of
 * `SigmaDetections.from_dict` + `__post_init__`, `SigmaDetection.from_definition` + `__post_init__`,
   `SigmaDetectionItem.from_mapping` (sigma/rule/detection.py), `sigma_type` (sigma/types.py),
 * `SigmaRule.from_dict` (sigma/rule/rule.py), `SigmaGlobalFilter.from_dict`, `SigmaFilter.from_dict` (sigma/filters.py),
-* `SigmaCorrelationRule.from_dict` + `__post_init__`, `SigmaCorrelationCondition.from_dict`,
+* `SigmaCorrelationRule.from_dict` + `__post_init__` + `_validate`, `SigmaCorrelationCondition.from_dict`,
   `SigmaCorrelationTimespan.__post_init__`, `SigmaCorrelationFieldAliases.from_dict`,
   `SigmaExtendedCorrelationCondition` (sigma/correlations.py),
 * `SigmaCollection.from_dicts`, `deep_dict_update`, `SigmaCollection.__post_init__` (sigma/collection.py)
@@ -631,8 +631,8 @@ def corrConditionSection (v : Y) (typ : Option CorrType) : R (CorrCond × List S
 
 def strIn (refs : List Str) (v : Y) : Bool := match v with | .str s => refs.contains s | _ => false
 
-/-- `SigmaCorrelationRule.__post_init__` (after `SigmaRuleBase.__post_init__`, which raises nothing) -/
-def corrPostInit (typ : Option CorrType) (rules : Option (List Y)) (cond : CorrCond) : R Unit := do
+/-- `SigmaCorrelationRule._validate`: the cross-field validation of the constructor -/
+def corrValidate (typ : Option CorrType) (rules : Option (List Y)) (cond : CorrCond) : R Unit := do
   if rules.isNone && !cond.isExtended then raiseS .correlationRuleError
   else if cond.isExtended && !optTemporal typ then raiseS .correlationConditionError
   else do
@@ -666,15 +666,25 @@ def corrSections (m : Dict) : R (Option CorrType × List Y × CorrCond × List S
   let (cond, e7) ← corrConditionSection (← pyGet cm (S "condition")) typ
   pure (typ, rules, cond, e0 ++ e1 ++ e2 ++ e3 ++ e4 ++ e5 ++ e6 ++ e7)
 
-/-- `SigmaCorrelationRule.from_dict`: the constructor runs after the tail, in both modes -/
+/-- `SigmaCorrelationRule.__post_init__(collect_errors)` (after `SigmaRuleBase.__post_init__`, which
+raises nothing), given the error list `errs` the constructor received:
+`try: self._validate()  except SigmaError as e: if not collect_errors: raise; self.errors.append(e)`.
+A non-Sigma exception of the validation would escape in both modes. -/
+def corrPostInit (collect : Bool) (typ : Option CorrType) (rules : Option (List Y)) (cond : CorrCond)
+    (errs : List SigmaCls) : R (List SigmaCls) :=
+  catchSigma none (do corrValidate typ rules cond; pure errs)
+    (fun c => if !collect then raiseS c else pure (errs ++ [c]))
+
+/-- `SigmaCorrelationRule.from_dict`: the constructor runs after the tail, in both modes, on the
+values the sections produced (placeholders for the parts that failed); in collecting mode the error
+of its cross-field validation is appended after the collected ones -/
 def corrFromDict (collect : Bool) (d : Y) : R (List SigmaCls) := do
   let (m, e0) ← documentAsMap collect d
   let e1 ← commonParams collect m
   let (typ, rules, cond, e2) ← corrSections m
   let errs ← tailRaise collect (e0 ++ e1 ++ e2)
   let rules' := if rules.isEmpty && cond.isExtended then none else some rules
-  corrPostInit typ rules' cond
-  pure errs
+  corrPostInit collect typ rules' cond errs
 
 /-! ## collections -/
 /-- `deep_dict_update(dest, src)` over the entries of `src` -/
